@@ -400,8 +400,17 @@ func filterLatest(files []string, n int) []string {
 	if len(files) == 0 {
 		return nil
 	}
+	// Newest start stamp first. The two copies of a run whose compaction was
+	// interrupted carry the same stamp: the compacted copy comes first, as
+	// in FindByRequestID (which is where a status update is appended), so
+	// that every query reads the copy that is kept up to date. A total order
+	// also keeps the result independent of the sort algorithm.
 	sort.Slice(files, func(i, j int) bool {
-		return timestamp(files[i]) > timestamp(files[j])
+		ti, tj := timestamp(files[i]), timestamp(files[j])
+		if ti != tj {
+			return ti > tj
+		}
+		return files[i] > files[j]
 	})
 	if n < 0 || n > len(files) {
 		n = len(files)
